@@ -1,6 +1,6 @@
 #!/bin/bash
 # tools/import_seeds.sh <PID> <agent worktree root, e.g. /tmp/seeds8> <own scratch worktree of /repo> <round>: verifies <root>/wt-<PID>/seeded/<i> with tools/verify_seed.sh and imports the verified ones as seeded/<PID>/<next>
-P=$1; ROOT=${2:-/tmp/seeds8}; WT=${3:-$WT}; ROUND=${4:-8}
+P=$1; ROOT=${2:-/tmp/seeds8}; WT=${3:-/tmp/vs8}; ROUND=${4:-8}
 for d in $ROOT/wt-$P/seeded/[0-9]*; do
   [ -f $d/patch.diff ] || continue
   res=$(/verif/tools/verify_seed.sh $WT $d 2>&1 | tail -1)
